@@ -74,6 +74,15 @@ class C05(Prop):
         twice = [l for l, n in covered.items() if n > 1]
         if twice:
             ctx.fail("page-in-two-webentities", "%r is listed under two webentities" % twice[:2], case)
+        # pages the ledger knows were submitted: each one that resolves must be listed under that webentity, even if the page
+        # enumeration has lost it (the answer of get_webentity_pages and resolution must agree for every indexed page)
+        for p in sorted(case.led.pages):
+            if p in pg:
+                continue
+            w = R[p]
+            if w is not None and p not in covered:
+                ctx.fail("submitted-page-unlisted", "page %r was submitted and resolves to webentity %r, but neither pages_iter nor get_webentity_pages(%r) lists it"
+                         % (p, w, w), case)
         resolving = set(p for p in pg if R[p] is not None)
         if set(covered) != resolving:
             ctx.fail("partition", "pages that resolve but are listed nowhere: %r; listed but not resolving: %r"
